@@ -166,7 +166,7 @@ def find_loops(b, lbrace, rbrace):
             while b[p] in ' \t\r\n':
                 p += 1
             r = match_close(b, p, '(', ')')
-            loops.append(dict(kw='do', kwpos=kwpos, hdr_l=p, hdr_r=r, ins=r + 1))
+            loops.append(dict(kw='do', kwpos=kwpos, hdr_l=p, hdr_r=r, ins=kwpos + 2))  # CBMC parses do-while contracts only right after 'do'
     return loops
 
 
